@@ -209,6 +209,21 @@ def run(rep, tier="quick", replay=None, evidence_dir=None):
                    "explicit panic site in a Writer method reachable from Drop: %s" % bad, bad[0][1] if bad else fb.loc())
         # drop itself must not propagate: it has no `?` (returns ()) and discards results: covered by R3 in_drop accounting
 
+    # ---------- R5: writer state may claim "sent" only after the sink accepted the bytes ----------
+    # If `has_header` (or the pending-block reset) is updated before the corresponding sink write succeeded, a sink
+    # error is reported once and every later call returns Ok while the file silently lacks those bytes.
+    # These are C03.R3/R4 instances (flush resets after the marker write; header flag after the header write).
+    rep.rule("C13.R5", "state that records bytes as delivered is updated only on the Ok edge of the sink write (C03.R3/R4 instances)")
+    import c03
+    sub = common.Report("C03", tier, 0)
+    c03.run(sub, tier=tier, collect_only=True)
+    n5 = 0
+    for o in sub.obligations:
+        if o["rule"] in ("C03.R4",) or (o["rule"] == "C03.R3" and ("clear" in o["instance"] or "reset" in o["instance"] or "num_values = 0" in o["instance"])):
+            n5 += 1
+            rep.ob("C13.R5", "[%s] %s" % (o["rule"], o["instance"]), o["ok"], o["detail"], o["loc"])
+    rep.floor("C13.R5", "imported state-after-write obligations", n5, 3)
+
     rep.not_decided = ["behaviour of particular sinks; Interrupted handling inside std's write_all",
                        "equality of the delivered byte sequence with the in-memory encoding (needs execution)"]
     return common.finish(rep, level="other",
